@@ -44,6 +44,9 @@ THEOREMS = [
     "Jinns.Rar.exhausted_forever",
     "Jinns.Rar.model_trace_holds",
     "Jinns.Rar.legal_wf",
+    "Jinns.Rar.c16StepCounts_of_step",
+    "Jinns.Rar.c16ScanCounts_of_scan",
+    "Jinns.Rar.holdsC16Resumed_of_holds",
 ]
 LEAN_MODULES = ["JinnsProofs.C16"]
 RULE = ("cases = (generator kind, allocation sizes, selected/sample sizes, batch sizes, start, every, number of "
@@ -203,6 +206,27 @@ def gen_cases(rng, tier):
             for k in (1, 2, 3):
                 for s, e in rng.sample(all_sched, 3):
                     cases.append(_with_schedule(base, s, e, stop_after=k))
+    # resumed runs: a second `init_rar` (what a second `jinns.solve` on the returned generator does) after k1
+    # iterations, the iteration number restarting at 0: the counting clauses go on (`Holds.C16Resumed`)
+    res_statics = [("ode", 0, _ODE[0], None), ("ode", 0, _ODE[3], None), ("statio", 2, None, _STATIO[1][1]),
+                   ("nonstatio", 2, _NONSTATIO[0][1], _NONSTATIO[0][2]), ("nonstatio", 2, _NONSTATIO[5][1], _NONSTATIO[5][2])]
+    if tier == "quick":
+        res_statics = [res_statics[0], rng.choice(res_statics[1:3]), rng.choice(res_statics[3:])]
+    for kind, dim, T, X in res_statics:
+        base = _base(rng, kind, dim, T, X, "trigger")
+        for s, e in ([(0, 1), (1, 2)] if tier == "quick" else [(0, 1), (1, 1), (1, 2), (2, 2), (0, 3)]):
+            c = _with_schedule(base, s, e)
+            k1 = s + e + 1                      # at least one step (when the capacity allows) before the second init
+            trig = [op for op in c["ops"] if op[0] == "trigger"]
+            ops = []
+            for k in range(k1):
+                ops += [["draw"], ["trigger", k, c["a0"]]]
+            ops.append(["reinit"])
+            for k in range(max(2, len(trig) - k1)):
+                ops += [["draw"], ["trigger", k, c["a0"]]]
+            c["ops"] = ops
+            c["reinit_after"] = k1
+            cases.append(c)
     # a rejected configuration: rar_parameters without the initial count
     bad = _with_schedule(_base(rng, "ode", 0, _ODE[0], None, "trigger"), 1, 2)
     bad["ntStart_arg"] = None
@@ -267,10 +291,23 @@ def lean_request(case, obs):
     req = {"op": "c16", "cfg": rarlib.cfg_json(case), "sizes": rarlib.sizes_json(case)}
     if "error" in obs:
         return {**req, "rejected": obs["error"], "trace": []}
-    return {**req, "trace": iteration_records(case, obs)}
+    recs = iteration_records(case, obs)
+    k1 = case.get("reinit_after")
+    if k1 is None:
+        return {**req, "trace": recs}
+    J0 = recs[k1 - 1]["iterNb"] if k1 >= 1 else 0
+    return [{**req, "trace": recs[:k1]},
+            {"op": "c16resumed", "cfg": rarlib.cfg_json(case), "J0": J0, "trace": recs[k1:]}]
 
 
 def judge(case, obs, answer):
+    if isinstance(answer, list):
+        v = judge({k: x for k, x in case.items() if k != "reinit_after"}, obs, answer[0])
+        if v["status"] != "ok":
+            return v
+        if not answer[1]["holds"]:
+            return {"status": "violation", "clause": answer[1]["clause"] + "@resumed-run"}
+        return v
     if "error" in obs:
         # Holds.C16: a legal configuration must not be rejected (constructor or trace time)
         if not answer["holds"]:
@@ -306,6 +343,12 @@ def nontrivial(case, obs):
 
 
 def tags(case, obs):
+    if case.get("reinit_after") is not None:
+        return _tags(case, obs) + ["second_init_rar(resumed run)"]
+    return _tags(case, obs)
+
+
+def _tags(case, obs):
     if "error" in obs:
         return ["rejected:" + obs["error"]]
     cap = rarlib.cap_of(case)
